@@ -34,13 +34,40 @@ func C17(p *load.Prog, r *report.Report) {
 	r.Trusted = []string{"go/packages import graph = what the linker links", "crypto.RegisterHash/(crypto.Hash).New contract of the standard library", "go/ssa call resolution"}
 	c17One(p, r, "host")
 	c17Iface(p, r)
+	// "whatever else the program does" includes earlier calls of the same functions, also those that panicked (the
+	// documented empty-DST panic is recovered by callers): no path may poison state shared between calls
+	inherit(p, r, "C17", "C08", C08, "C08.poolstate")
+	inherit(p, r, "C17", "C09", C09, "C09.poolstate")
 	// build tags the module's own files are conditioned on (other than operating systems and architectures): the
 	// linkage rule must hold with each of them set, since the importing program chooses (-tags, -race)
 	tags := moduleBuildTags(p.Dir)
 	r.Analysed["module_build_tags"] = len(tags)
+	type cfgT struct {
+		name string
+		env  []string
+	}
+	var cfgs []cfgT
 	for _, t := range tags {
-		name := "tags=" + t
-		q, err := load.Load(p.Dir, "GOFLAGS=-mod=mod -tags="+t)
+		switch {
+		case t == "boringcrypto":
+			// go/build treats the tag boringcrypto as goexperiment.boringcrypto: it is set by GOEXPERIMENT, not by -tags
+			cfgs = append(cfgs, cfgT{"GOEXPERIMENT=boringcrypto", []string{"GOEXPERIMENT=boringcrypto"}})
+		case strings.HasPrefix(t, "goexperiment."):
+			x := strings.TrimPrefix(t, "goexperiment.")
+			cfgs = append(cfgs, cfgT{"GOEXPERIMENT=" + x, []string{"GOEXPERIMENT=" + x}})
+		default:
+			cfgs = append(cfgs, cfgT{"tags=" + t, []string{"GOFLAGS=-mod=mod -tags=" + t}})
+		}
+	}
+	// operating systems and architectures the module's files are conditioned on (//go:build or file-name suffix):
+	// one configuration per value named, and one that none of them names
+	for _, pf := range modulePlatforms(p.Dir) {
+		cfgs = append(cfgs, cfgT{strings.Join(pf, " "), pf})
+	}
+	r.Analysed["module_platform_configs"] = len(cfgs) - len(tags)
+	for _, c := range cfgs {
+		name := c.name
+		q, err := load.Load(p.Dir, c.env...)
 		if err != nil {
 			r.Undecided("C17.load", name, "", err.Error())
 			continue
@@ -58,6 +85,121 @@ func C17(p *load.Prog, r *report.Report) {
 			c17One(q, r, name)
 		}
 	}
+}
+
+var platOS = strings.Fields("aix android darwin dragonfly freebsd illumos ios js linux netbsd openbsd plan9 solaris wasip1 windows")
+var platArch = strings.Fields("386 amd64 arm arm64 loong64 mips mipsle mips64 mips64le ppc64 ppc64le riscv64 s390x wasm")
+
+// a valid architecture for each operating system, and the operating systems an architecture is paired with
+var platPair = map[string]string{"aix": "ppc64", "android": "arm64", "darwin": "arm64", "dragonfly": "amd64", "freebsd": "amd64", "illumos": "amd64", "ios": "arm64", "js": "wasm", "linux": "amd64", "netbsd": "amd64", "openbsd": "amd64", "plan9": "amd64", "solaris": "amd64", "wasip1": "wasm", "windows": "amd64", "wasm": "js"}
+
+// modulePlatforms returns GOOS/GOARCH configurations that exercise every operating system and architecture named
+// in a build constraint or file-name suffix of the module's non-test files, plus one that none of them names.
+func modulePlatforms(dir string) [][]string {
+	named := map[string]bool{}
+	isOS, isArch := map[string]bool{}, map[string]bool{}
+	for _, x := range platOS {
+		isOS[x] = true
+	}
+	for _, x := range platArch {
+		isArch[x] = true
+	}
+	isOS["unix"] = true
+	filepath.WalkDir(dir, func(path string, d fs.DirEntry, err error) error {
+		if err != nil {
+			return nil
+		}
+		if d.IsDir() {
+			if n := d.Name(); path != dir && (strings.HasPrefix(n, ".") || n == "testdata" || n == "vendor") {
+				return filepath.SkipDir
+			}
+			return nil
+		}
+		if !strings.HasSuffix(path, ".go") || strings.HasSuffix(path, "_test.go") {
+			return nil
+		}
+		parts := strings.Split(strings.TrimSuffix(filepath.Base(path), ".go"), "_")
+		for i, x := range parts {
+			if i > 0 && i >= len(parts)-2 && (isOS[x] || isArch[x]) && x != "unix" {
+				named[x] = true
+			}
+		}
+		data, err := os.ReadFile(path)
+		if err != nil {
+			return nil
+		}
+		for _, line := range strings.Split(string(data), "\n") {
+			line = strings.TrimSpace(line)
+			if strings.HasPrefix(line, "package ") {
+				break
+			}
+			if !strings.HasPrefix(line, "//go:build ") {
+				continue
+			}
+			expr, err := constraint.Parse(line)
+			if err != nil {
+				continue
+			}
+			var walk func(e constraint.Expr)
+			walk = func(e constraint.Expr) {
+				switch x := e.(type) {
+				case *constraint.TagExpr:
+					if isOS[x.Tag] || isArch[x.Tag] {
+						named[x.Tag] = true
+					}
+				case *constraint.NotExpr:
+					walk(x.X)
+				case *constraint.AndExpr:
+					walk(x.X)
+					walk(x.Y)
+				case *constraint.OrExpr:
+					walk(x.X)
+					walk(x.Y)
+				}
+			}
+			walk(expr)
+		}
+		return nil
+	})
+	if len(named) == 0 {
+		return nil
+	}
+	var out [][]string
+	var keys []string
+	for k := range named {
+		keys = append(keys, k)
+	}
+	sort.Strings(keys)
+	for _, k := range keys {
+		switch {
+		case k == "unix":
+			out = append(out, []string{"GOOS=linux", "GOARCH=amd64"}, []string{"GOOS=windows", "GOARCH=amd64"})
+		case isOS[k]:
+			out = append(out, []string{"GOOS=" + k, "GOARCH=" + platPair[k]})
+		case k == "wasm":
+			out = append(out, []string{"GOOS=js", "GOARCH=wasm"})
+		default:
+			out = append(out, []string{"GOOS=linux", "GOARCH=" + k})
+		}
+	}
+	// a configuration none of the constraints names
+	for _, o := range []string{"linux", "windows", "darwin", "freebsd", "openbsd"} {
+		done := false
+		for _, a := range []string{"amd64", "arm64"} {
+			if !named[o] && !named[a] && !(named["unix"] && o != "windows") {
+				out = append(out, []string{"GOOS=" + o, "GOARCH=" + a})
+				done = true
+				break
+			}
+		}
+		if done {
+			break
+		}
+	}
+	if len(out) > 8 {
+		out = out[:8]
+	}
+	return out
 }
 
 // moduleBuildTags lists the custom tags named in //go:build lines of the module's non-test files.
